@@ -191,7 +191,14 @@ class Real:
         """object for an idtuple; tuples index ItemSpaces (creating them)"""
         o = self.m
         for part in sid:
-            if isinstance(part, (tuple, list)):
+            if isinstance(part, dict):
+                # explicit spelling: {"a": positional args, "k": keyword args, "sub": use [] instead of ()}
+                if part.get("sub"):
+                    a = tuple(part.get("a", ()))
+                    o = o[a[0]] if len(a) == 1 else o[a]
+                else:
+                    o = o(*part.get("a", ()), **part.get("k", {}))
+            elif isinstance(part, (tuple, list)):
                 o = o[tuple(part)]
             else:
                 o = o.spaces[part] if o is self.m or part in o.spaces else getattr(o, part)
